@@ -30,7 +30,8 @@ type vfCleanScenario struct {
 	Other    map[string]string `json:"other,omitempty"`  // other pre-existing files (any name)
 	Dirs     []string          `json:"dirs,omitempty"`   // pre-existing sub-directories (each gets one file inside)
 	Tests    []vfTestExec      `json:"tests"`
-	Skips    []string          `json:"skips,omitempty"` // tests that call snaps.Skip first and make no call
+	Tests2   []vfTestExec      `json:"tests2,omitempty"` // if set: what the 2nd, 3rd ... execution does instead (data-dependent call counts)
+	Skips    []string          `json:"skips,omitempty"`  // tests that call snaps.Skip first and make no call
 	Count    int               `json:"count"`
 	CI       bool              `json:"ci,omitempty"`
 	Sort     bool              `json:"sort,omitempty"`
@@ -116,7 +117,11 @@ func vfRunClean(c *vfCtx, sc vfCleanScenario) *vfCleanObs {
 			t.end()
 			m.skips++
 		}
-		o.callObs = append(o.callObs, vfRunTests(vfSpellDir(dir, sc.DirSpell), m, sc.Tests)...)
+		tests := sc.Tests
+		if e > 0 && sc.Tests2 != nil {
+			tests = sc.Tests2
+		}
+		o.callObs = append(o.callObs, vfRunTests(vfSpellDir(dir, sc.DirSpell), m, tests)...)
 	}
 	vfPlantSentinel(root)
 	o.before = vfSnapDir(dir)
